@@ -1,6 +1,6 @@
 (* Entry point of the extracted evaluator. *)
 From Coq Require Import String.
-From HS Require Import Lib.Base Model.Serve Run.Val Run.ServeRun Run.ServeSpec Run.NegotRun Run.StreamRun Run.DirRun Run.FileRun Run.SchedRun.
+From HS Require Import Lib.Base Model.Serve Run.Val Run.ServeRun Run.ServeSpec Run.NegotRun Run.StreamRun Run.DirRun Run.FileRun Run.SchedRun Run.OnceRun.
 
 Definition E_SERVE := bs "serve"%string.
 Definition E_NEGOT := bs "negot"%string.
@@ -8,6 +8,7 @@ Definition E_STREAM := bs "stream"%string.
 Definition E_DIR := bs "dir"%string.
 Definition E_FILE := bs "file"%string.
 Definition E_SCHED := bs "sched"%string.
+Definition E_ONCE := bs "once"%string.
 
 Definition run_case (engine : bytes) (v : val) : val :=
   if beq_bytes engine E_SERVE then
@@ -38,4 +39,5 @@ Definition run_case (engine : bytes) (v : val) : val :=
   else if beq_bytes engine E_DIR then run_dir v
   else if beq_bytes engine E_FILE then run_file v
   else if beq_bytes engine E_SCHED then run_sched v
+  else if beq_bytes engine E_ONCE then run_once v
   else VL [finding K_BAD engine (VL []) (VL [])].
